@@ -386,7 +386,7 @@ def check(c, tier, replay):
         return
     thorough = tier == 'thorough'
     # S1 ---------------------------------------------------------------------------------
-    s1 = dict(MaxOps=6) if thorough else dict(Steps='<-MCStepsQ')
+    s1 = dict(MaxOps=6, Steps='<-MCStepsQ') if thorough else dict(Steps='<-MCStepsQ')
     r = c.model_check('EntryChain_MC', cfg_text=mc_cfg(ACCT_DEFAULTS, **s1), workers=8, timeout=3000)
     if not r.completed:
         c.inconclusive.append('EntryChain.tla (acct instance): %s - the design-level spec violates its own property' % (r.violated or 'deadlock'))
